@@ -167,9 +167,24 @@ func ruleR16b(h *H) {
 	const rule = "R16b"
 	h.Rule(rule, "K1", "in the key generation, the construction of the new key is only reached when the first delta is non-zero (idx != 0 or delta != 0 established)", 1)
 	n := 0
+	// the generating function: the one that looks the current last key up, or its caller
+	// (the lookup is usually a helper of the generation)
+	var cands []*ssa.Function
+	seenC := map[*ssa.Function]bool{}
 	for _, lookup := range sequenceLookupFns(h) {
+		if !seenC[lookup] {
+			seenC[lookup] = true
+			cands = append(cands, lookup)
+		}
 		for _, e := range h.P.CallersOf(lookup) {
-			fn := e.Caller.Func
+			if !seenC[e.Caller.Func] {
+				seenC[e.Caller.Func] = true
+				cands = append(cands, e.Caller.Func)
+			}
+		}
+	}
+	{
+		for _, fn := range cands {
 			if ir.RelPkg(ir.PkgPathOf(fn)) != "server/kv" {
 				continue
 			}
@@ -212,6 +227,18 @@ func ruleR16b(h *H) {
 					}
 				}
 			})
+			if len(builds) == 0 && len(deltaElems) > 0 {
+				// the key is accumulated in a builder: the in-loop formatting calls are the construction steps
+				ir.Instrs(fn, func(in ssa.Instruction) {
+					call, ok := in.(*ssa.Call)
+					if !ok || !inLoopBlock(call.Block()) {
+						return
+					}
+					if f := call.Call.StaticCallee(); f != nil && f.Pkg != nil && (f.Pkg.Pkg.Path() == "fmt" || f.Pkg.Pkg.Path() == "strconv") {
+						builds = append(builds, call)
+					}
+				})
+			}
 			if len(builds) == 0 || len(deltaElems) == 0 {
 				continue
 			}
